@@ -52,6 +52,7 @@ for _r in _REF:
         if _l not in LOOP_IDS and ANCHORED.get(_l):
             LOOP_IDS.append(_l)
 NL = len(LOOP_IDS)
+_EXP_INST = None      # filled below, once expected_instances is defined
 
 
 def expected_partition(loop_id):
@@ -71,6 +72,39 @@ def expected_partition(loop_id):
             cur = None
             out.append(('seg', i))
     return out
+
+
+def expected_instances(loop_id):
+    """per reference segment: tuple of instance numbers of the loops below `loop_id` on its path (None when outside the loop).
+    A loop instance starts at a segment that is the first segment of its (innermost) loop, or when the loop is entered from outside."""
+    out = []
+    stack = []          # [(loop id, instance number)]
+    counter = [0]
+    for (txt, loops, first, sc, ln) in _REF:
+        k = 0
+        while k < len(stack) and k < len(loops) and stack[k][0] == loops[k]:
+            k += 1
+        if first:
+            k = min(k, len(loops) - 1)
+        del stack[k:]
+        for j in range(k, len(loops)):
+            counter[0] += 1
+            stack.append((loops[j], counter[0]))
+        if loop_id is not None and loop_id in loops:
+            out.append(tuple(x[1] for x in stack[loops.index(loop_id) + 1:]))
+        else:
+            out.append(None)
+    return out
+
+
+def _chain_nodes(node, root):
+    ids = []
+    p = node.parent
+    while p is not None and p is not root:
+        ids.append(id(p))
+        p = p.parent
+    ids.reverse()
+    return ids
 
 
 def _chain(node, root):
@@ -97,6 +131,9 @@ def _walk(tree):
     return out
 
 
+_EXP_INST = [expected_instances(l) for l in LOOP_IDS]
+
+
 def h_partition(li: int) -> bool:
     '''
     pre: 0 <= li < NL
@@ -119,6 +156,16 @@ def h_partition(li: int) -> bool:
             items = _walk(g)
             if [x['segment'].format() for x in g.iterate_segments()] != [_REF[i][0] for i in e[1]] or len(items) != len(e[1]):
                 return False
+            # loop INSTANCES: two segments share a child loop node exactly when the reference puts them in the same loop instance
+            fwd, back = {}, {}
+            for (node, chain), i in zip(items, e[1]):
+                inst = _EXP_INST[li][i]
+                got_nodes = _chain_nodes(node, g)
+                if inst is None or len(inst) != len(got_nodes):
+                    return False
+                for a, b in zip(inst, got_nodes):
+                    if fwd.setdefault(a, b) != b or back.setdefault(b, a) != a:
+                        return False
             for (node, chain), i in zip(items, e[1]):
                 loops = _REF[i][1]
                 below = loops[loops.index(loop_id) + 1:] if loop_id in loops else None
@@ -136,6 +183,8 @@ def _ob(name, fn, tier, timeout, kind='ch', **params):
 OBLIGATIONS = [
     _ob('partition_997', 'h_partition', 'quick', 1200, doc='997'),
     _ob('partition_999', 'h_partition', 'quick', 1200, doc='999'),
+    _ob('partition_997_multi', 'h_partition', 'quick', 2400, doc='997_multi'),     # 2 interchanges x 2 groups x 2 sets: loop instances
+    _ob('partition_999_multi', 'h_partition', 'thorough', 2400, doc='999_multi'),
     _ob('partition_834', 'h_partition', 'quick', 2400, doc='834_lui_id'),
     _ob('partition_repeat_init', 'h_partition', 'quick', 2400, doc='repeat_init_segment'),
     _ob('partition_834_5010', 'h_partition', 'thorough', 2400, doc='834_lui_id_5010'),
